@@ -106,6 +106,8 @@ type CallPlan struct {
 	YieldOn    [simhttp.NumPoints]bool
 	SlowOn     [simhttp.NumPoints]bool
 
+	bin map[string][][]byte // original bytes of generated -Bin values
+
 	Raw *RawReq // if set: no connect client; a crafted HTTP request is served directly
 
 	Task int // client task group (calls with the same Task run sequentially in one task)
